@@ -169,6 +169,10 @@ func init() {
 	Checks["C17"] = &Check{Level: "fault_enumeration", Run: CheckC17, QuickBudget: 240, ThoroughBudget: 1500}
 }
 
+func init() {
+	Checks["C13"] = &Check{Level: "model_checking", Run: CheckC13, QuickBudget: 300, ThoroughBudget: 1800}
+}
+
 // kReplay re-executes an operation-history counterexample of the K space.
 func kReplay(prop string) func(v *Viol) []string {
 	return func(v *Viol) []string {
